@@ -20,6 +20,7 @@ CONTRACTS = {
     'C12': 'contracts.c12',
     'C13': 'contracts.c13',
     'C14': 'contracts.c14',
+    'C15': 'contracts.c15',
     'C16': 'contracts.c16',
 }
 
